@@ -7,7 +7,7 @@ pub fn take_diff<T: SizedType>(
     old_skeleton: &StateTreeSkeleton<T>,
     new_skeleton: &StateTreeSkeleton<T>,
 ) -> HashSet<CopyFromPatch> {
-    build_patches_recursive(old_skeleton, new_skeleton, vec![], vec![])
+    build_patches_recursive(old_skeleton, new_skeleton, vec![], vec![]).0
 }
 
 /// Enum representing the result of LCS algorithm
@@ -55,8 +55,8 @@ pub fn lcs_by_score<T>(
         if i > 0 && j > 0 {
             let score = score_fn(&old[i - 1], &new[j - 1]);
 
-            if score > 0.0 {
-                // Likely matched
+            if score > 0.0 && dp[i][j] == dp[i - 1][j - 1] + score {
+                // Matched on a best-scoring path of the table
                 results.push(DiffResult::Common {
                     old_index: i - 1,
                     new_index: j - 1,
@@ -119,12 +119,25 @@ fn get_node_at_path<'a, T: SizedType>(
     }
 }
 
+/// Number of nodes (cells and calls) in a subtree.
+fn node_count<T: SizedType>(node: &StateTreeSkeleton<T>) -> usize {
+    match node {
+        StateTreeSkeleton::FnCall(children) => {
+            1 + children.iter().map(|c| node_count(c)).sum::<usize>()
+        }
+        _ => 1,
+    }
+}
+
+/// Returns the patches that carry `old_path` over to `new_path` and the number of nodes they
+/// cover. An unchanged subtree covers all of its nodes including its root, so it always outweighs
+/// a pairing with a sibling that merely shares some of its cells.
 fn build_patches_recursive<T: SizedType>(
     old_skeleton: &StateTreeSkeleton<T>,
     new_skeleton: &StateTreeSkeleton<T>,
     old_path: Vec<usize>,
     new_path: Vec<usize>,
-) -> HashSet<CopyFromPatch> {
+) -> (HashSet<CopyFromPatch>, usize) {
     // Retrieve the current node from the path
     let old_node = get_node_at_path(old_skeleton, &old_path).expect("Invalid old_path");
     let new_node = get_node_at_path(new_skeleton, &new_path).expect("Invalid new_path");
@@ -144,13 +157,16 @@ fn build_patches_recursive<T: SizedType>(
             "Size mismatch between matched nodes at old_path {old_path:?} and new_path {new_path:?}"
         );
 
-        return [CopyFromPatch {
-            src_addr,
-            dst_addr,
-            size,
-        }]
-        .into_iter()
-        .collect();
+        return (
+            [CopyFromPatch {
+                src_addr,
+                dst_addr,
+                size,
+            }]
+            .into_iter()
+            .collect(),
+            node_count(old_node),
+        );
     }
 
     match (old_node, new_node) {
@@ -161,7 +177,7 @@ fn build_patches_recursive<T: SizedType>(
                 for new_idx in 0..new_children.len() {
                     let child_old_path = [old_path.clone(), vec![old_idx]].concat();
                     let child_new_path = [new_path.clone(), vec![new_idx]].concat();
-                    let patches = build_patches_recursive(
+                    let (patches, covered) = build_patches_recursive(
                         old_skeleton,
                         new_skeleton,
                         child_old_path,
@@ -170,7 +186,7 @@ fn build_patches_recursive<T: SizedType>(
                     let score = if patches.is_empty() {
                         0.0
                     } else {
-                        patches.len() as f64
+                        covered as f64
                     };
                     child_patches_map.push(((old_idx, new_idx), patches, score));
                 }
@@ -194,21 +210,23 @@ fn build_patches_recursive<T: SizedType>(
 
             // Collect patches based on LCS results
             let mut c_patches = HashSet::new();
+            let mut c_covered = 0;
             for result in &lcs_results {
                 if let DiffResult::Common {
                     old_index,
                     new_index,
                 } = result
-                    && let Some((_, patches, _)) = child_patches_map
+                    && let Some((_, patches, score)) = child_patches_map
                         .iter()
                         .find(|((o, n), _, _)| o == old_index && n == new_index)
                 {
                     c_patches.extend(patches.iter().cloned());
+                    c_covered += *score as usize;
                 }
             }
 
-            c_patches
+            (c_patches, c_covered)
         }
-        _ => HashSet::new(),
+        _ => (HashSet::new(), 0),
     }
 }
